@@ -553,6 +553,7 @@ class Module:
         self.functions: Dict[str, Function] = {}
         self._src_cache: Dict[str, List[str]] = {}
         self.promoteds: Dict[str, Function] = {}
+        self.const_values: Dict[str, str] = {}  # single-line consts: name -> literal text
         self._parse(text)
         self._index()
 
@@ -586,6 +587,9 @@ class Module:
                     pass
                 i = j + 1
             else:
+                m = re.match(r"^(?:const|static) (\S+): (.*) = const (.*);$", ln)
+                if m:
+                    self.const_values[m.group(1)] = m.group(3)
                 i += 1
 
     def _parse_body(self, body: List[str]):
